@@ -18,7 +18,8 @@ import (
 // ---------------------------------------------------------------------------------------
 // Shared vocabulary (DESIGN.md §3)
 
-var BufSizesQuick = []int{1, 16, 125, 126, 130, 300, 0}
+// (since the F1 fix every WriteBufferSize < 125 behaves as 125; 1 and 16 are kept to exercise the clamp)
+var BufSizesQuick = []int{1, 125, 126, 300, 0}
 var BufSizesThorough = []int{1, 16, 125, 126, 130, 300, 0, 65536, 70000}
 
 func effB(b int) int {
@@ -65,9 +66,12 @@ func cutsUpTo(set []int, lo, n int) []int {
 // Instrumented BufferPool
 
 type PoolEvent struct {
-	Op   string // "get" / "put"
-	Conn string
-	Buf  int // buffer id (0 = none / fresh)
+	Op     string // "get" / "put"
+	Conn   string
+	Buf    int // buffer id (0 = none / fresh)
+	Call   int // index of the API call in progress (stamp)
+	OpIdx  int // number of transport ops logged so far (stamp)
+	Poison bool
 }
 
 // LogPool is a deterministic BufferPool: LIFO, logs every call, poisons returned buffers.
@@ -78,6 +82,15 @@ type LogPool struct {
 	Who    string // name of the connection currently calling (set by the harness)
 	Out    map[int]string
 	Hook   func(op string)
+	Stamp  func() (call, op int)
+}
+
+func (p *LogPool) ev(op string, id int) {
+	e := PoolEvent{Op: op, Conn: p.Who, Buf: id}
+	if p.Stamp != nil {
+		e.Call, e.OpIdx = p.Stamp()
+	}
+	p.Events = append(p.Events, e)
 }
 
 func NewLogPool() *LogPool { return &LogPool{ids: map[*byte]int{}, Out: map[int]string{}} }
@@ -101,13 +114,13 @@ func (p *LogPool) Get() interface{} {
 		p.Hook("get")
 	}
 	if len(p.free) == 0 {
-		p.Events = append(p.Events, PoolEvent{"get", p.Who, 0})
+		p.ev("get", 0)
 		return nil
 	}
 	v := p.free[len(p.free)-1]
 	p.free = p.free[:len(p.free)-1]
 	id := p.idOf(v)
-	p.Events = append(p.Events, PoolEvent{"get", p.Who, id})
+	p.ev("get", id)
 	p.Out[id] = p.Who
 	return v
 }
@@ -117,7 +130,7 @@ func (p *LogPool) Put(v interface{}) {
 		p.Hook("put")
 	}
 	id := p.idOf(v)
-	p.Events = append(p.Events, PoolEvent{"put", p.Who, id})
+	p.ev("put", id)
 	b := websocket.VerifPoolBuf(v)
 	for i := range b {
 		b[i] = 0xDD
@@ -198,13 +211,16 @@ type APICall struct {
 	W0, W1   int // range of transport Write calls issued during the call
 	Op0, Op1 int // range of transport ops
 	Epoch    int
+	CtlDL    *time.Time // WriteControl: its own deadline argument
 }
 
 type WConfig struct {
-	Server   bool
-	B        int
-	Compress bool
-	Pool     bool
+	Server    bool
+	B         int
+	Compress  bool
+	Pool      bool
+	ForcePool bool
+	Lean      bool // skip content dimensions (type, pattern, level) - used by the fault checks
 }
 
 func (c WConfig) String() string {
@@ -230,13 +246,31 @@ type WEnv struct {
 	Name    string
 	Failed  bool // an API call failed (fault injection); later expectations are void
 	CurKind string
+	Between func(pos string) // extra hook between the calls of a message program
+	CtlDL   time.Time        // deadline argument used for WriteControl
+	curCall int
 }
+
+// callQuiet records an API call that is expected to fail (invalid request): no Failed flag.
+func (e *WEnv) callQuiet(name string, f func() error) *APICall {
+	ac := APICall{Name: name, W0: len(e.NC.Writes), Op0: len(e.NC.Ops)}
+	e.curCall = len(e.Calls)
+	ac.Err = f()
+	ac.W1, ac.Op1 = len(e.NC.Writes), len(e.NC.Ops)
+	e.Calls = append(e.Calls, ac)
+	e.X.Obs("%s: %s -> %v (writes %d)", e.Name, name, ac.Err, ac.W1-ac.W0)
+	return &e.Calls[len(e.Calls)-1]
+}
+
+// wpOnEnv, when set, is called by writePhase right after the writer environment exists.
+var wpOnEnv func(e *WEnv)
 
 func NewWEnv(x *explore.Ctx, cfg WConfig, big bool) *WEnv {
 	e := &WEnv{X: x, Cfg: cfg, NC: netsim.NewConn(nil), WComp: true, Level: 1, Name: "w"}
 	if cfg.Pool {
 		e.Pool = NewLogPool()
 		e.Pool.Who = e.Name
+		e.Pool.Stamp = func() (int, int) { return e.curCall, len(e.NC.Ops) }
 	}
 	var pool websocket.BufferPool
 	if e.Pool != nil {
@@ -257,6 +291,7 @@ func (e *WEnv) call(name string, f func() error) *APICall {
 	if e.Pool != nil {
 		e.Pool.Who = e.Name
 	}
+	e.curCall = len(e.Calls)
 	ac.Err = f()
 	ac.W1, ac.Op1 = len(e.NC.Writes), len(e.NC.Ops)
 	e.Calls = append(e.Calls, ac)
@@ -360,6 +395,10 @@ func (e *WEnv) WriteMessageProg(prog, mt, n, pattern int, pick, pick2 chooser, b
 	comp := e.compNow(mt)
 	if between == nil {
 		between = func(string) {}
+	}
+	if e.Between != nil {
+		inner := between
+		between = func(pos string) { inner(pos); e.Between(pos) }
 	}
 	switch prog {
 	case PWriteMessage:
@@ -475,7 +514,9 @@ func (e *WEnv) Control(variant, mt int, payload []byte) {
 	defer func() { e.CurKind = "data" }()
 	switch variant {
 	case 0:
-		ac := e.call(fmt.Sprintf("WriteControl(%d,%d bytes)", mt, len(payload)), func() error { return e.C.WriteControl(mt, payload, time.Time{}) })
+		dl := e.CtlDL
+		ac := e.call(fmt.Sprintf("WriteControl(%d,%d bytes)", mt, len(payload)), func() error { return e.C.WriteControl(mt, payload, dl) })
+		ac.CtlDL = &dl
 		e.sent(mt, payload, ac, false)
 	case 1:
 		ac := e.call(fmt.Sprintf("WriteMessage(%d,%d bytes)", mt, len(payload)), func() error { return e.C.WriteMessage(mt, payload) })
